@@ -224,37 +224,36 @@ def _flip(ctx, P):
         calls.append(list(args))
         return Obj("ndarray", "KERNEL-OUT")
 
-    def hook(ev, f, args, kw, node):
-        from ..absint import Builtin
+    # the bins are given as one representative per order class; whatever spelling the source uses to test monotonicity
+    # is *evaluated* on it (sa.concrete), no condition text is matched
+    from ..concrete import REPRESENTATIVES, truth_hook
 
-        if isinstance(f, Builtin) and f.name == "all" and args and isinstance(args[0], Obj):
-            return TOP
-        return NotImplemented
-
-    ev = Evaluator(P, models={"transform:_interp_1d_conservative": m_kernel}, call_hook=hook)
-    try:
-        outs = []
-        per_path = []
-        res = ev.run_paths(fi, lambda: dict(phi=Obj("ndarray", "phi", (), {"shape": TOP}), theta=Obj("ndarray", "theta"), target_theta_bins=Obj("ndarray", "bins", (), {"ndim": 1})))
-    except Unmodelled as e:
-        ctx.unknown("R07.1", "flip discipline", str(e))
-        return
+    res = []
+    for cls in ("increasing", "decreasing"):
+        ev = Evaluator(P, models={"transform:_interp_1d_conservative": m_kernel}, call_hook=truth_hook({"bins": REPRESENTATIVES[cls]}))
+        try:
+            outs = ev.run_paths(fi, lambda: dict(phi=Obj("ndarray", "phi", (), {"shape": TOP}), theta=Obj("ndarray", "theta"), target_theta_bins=Obj("ndarray", "bins", (), {"ndim": 1})))
+        except Unmodelled as e:
+            ctx.unknown("R07.1", f"flip discipline ({cls} bins)", str(e))
+            return
+        for o in outs:
+            res.append((cls, o))
     rev = SliceV(None, None, -1)
 
     def gi(o):
         return [e[1] for e in o.eff if e[0] == "getitem"] if isinstance(o, Obj) else None
 
     calls_iter = iter(calls)
-    for o in res:
-        dec = [d[2] for d in o.decisions if "all(" in d[1]]
+    for cls, o in res:
+        inst = f"{cls} bins"
         if o.kind != "return":
+            ctx.report("R07.1", fi, inst, f"strictly {cls} bins are refused ({o.value})")
             continue
         args = next(calls_iter, None)
         if args is None:
             ctx.report("R07.1", fi, "kernel call", "a returning path does not call the kernel")
             continue
-        decreasing = bool(dec and dec[0])
-        inst = f"{'decreasing' if decreasing else 'increasing'} bins"
+        decreasing = cls == "decreasing"
         phi, th1, th2, h1, h2 = args[:5]
         bad = None
         if gi(th1) != [(Ellipsis, SliceV(None, -1, None))] or gi(th2) != [(Ellipsis, SliceV(1, None, None))] or th1.name != "theta" or th2.name != "theta":
